@@ -108,7 +108,8 @@ def run(report, tier, parts, select, label, cfg="on", floors_key=None):
                 if allowed is not None and ck not in fp_cache:
                     if mir is None:
                         mir = engine_fp.Mir()
-                    fp_cache[ck] = mir.fingerprints(st["pos"], st["kind"], st.get("msg"), st.get("via") or [])
+                    fp_cache[ck] = [engine_fp.norm_fp(x) for x in
+                                    mir.fingerprints(st["pos"], st["kind"], st.get("msg"), st.get("via") or [])]
                     if fp_cache[ck]:
                         stats["fp_located"] += 1
                         bad = [f for f in fp_cache[ck] if f not in allowed]
@@ -150,7 +151,7 @@ def run(report, tier, parts, select, label, cfg="on", floors_key=None):
             continue
         if mir is None:
             mir = engine_fp.Mir()
-        cur = mir.caller_fingerprints(key.split(" | ")[0])
+        cur = [engine_fp.norm_fp(x) for x in mir.caller_fingerprints(key.split(" | ")[0])]
         ncallers += len(cur)
         bad = [f for f in cur if f not in allowed]
         if bad:
